@@ -481,6 +481,99 @@ theorem removeInter_inv {m : Mol} (h : m.Inv) (ty : String) (atoms : List Int) (
     exact k3 ti (removeFirst_sub _ _ _ _ _ hr ti hti) a ha
   | none => exact h
 
+/-! ### remove_matching_interaction, prune_edges -/
+
+theorem removeFirstP_some_iff (l : List (String × Inter)) (ty : String) (p : Inter → Bool)
+    (l' : List (String × Inter)) :
+    removeFirstP l ty p = some l' ↔
+      ∃ pre x post, l = pre ++ x :: post ∧ (x.1 = ty ∧ p x.2 = true) ∧
+        (∀ y ∈ pre, ¬ (y.1 = ty ∧ p y.2 = true)) ∧ l' = pre ++ post := by
+  induction l generalizing l' with
+  | nil =>
+    simp only [removeFirstP, reduceCtorEq, false_iff]
+    rintro ⟨pre, x, post, h, _⟩
+    cases pre <;> cases h
+  | cons q t ih =>
+    obtain ⟨t0, j⟩ := q
+    unfold removeFirstP
+    by_cases hc : t0 = ty ∧ p j = true
+    · rw [if_pos hc]
+      constructor
+      · intro h; cases h
+        exact ⟨[], (t0, j), t, rfl, hc, fun _ hy => (by cases hy), rfl⟩
+      · rintro ⟨pre, x, post, h, hx, hpre, rfl⟩
+        cases pre with
+        | nil => simp only [List.nil_append, List.cons.injEq] at h; rw [h.2]; rfl
+        | cons y pre' =>
+          simp only [List.cons_append, List.cons.injEq] at h
+          have hy := hpre y List.mem_cons_self
+          rw [← h.1] at hy
+          exact absurd hc hy
+    · rw [if_neg hc]
+      constructor
+      · intro h
+        cases hr : removeFirstP t ty p with
+        | none => rw [hr] at h; cases h
+        | some r =>
+          rw [hr] at h; cases h
+          obtain ⟨pre, x, post, h1, h2, h3, h4⟩ := (ih r).mp hr
+          refine ⟨(t0, j) :: pre, x, post, by rw [h1]; rfl, h2, ?_, by rw [h4]; rfl⟩
+          intro y hy
+          rcases List.mem_cons.mp hy with rfl | hy
+          · exact hc
+          · exact h3 y hy
+      · rintro ⟨pre, x, post, h, hx, hpre, rfl⟩
+        cases pre with
+        | nil =>
+          simp only [List.nil_append, List.cons.injEq] at h
+          rw [← h.1] at hx
+          exact absurd hx hc
+        | cons y pre' =>
+          simp only [List.cons_append, List.cons.injEq] at h
+          have := (ih (pre' ++ post)).mpr ⟨pre', x, post, h.2, hx,
+            fun z hz => hpre z (List.mem_cons_of_mem _ hz), rfl⟩
+          rw [this, h.1]; rfl
+
+theorem removeFirstP_none_iff (l : List (String × Inter)) (ty : String) (p : Inter → Bool) :
+    removeFirstP l ty p = none ↔ ∀ y ∈ l, ¬ (y.1 = ty ∧ p y.2 = true) := by
+  induction l with
+  | nil => simp [removeFirstP]
+  | cons q t ih =>
+    obtain ⟨t0, j⟩ := q
+    unfold removeFirstP
+    by_cases hc : t0 = ty ∧ p j = true
+    · rw [if_pos hc]
+      simp only [reduceCtorEq, false_iff]
+      intro h; exact h (t0, j) List.mem_cons_self hc
+    · rw [if_neg hc]
+      simp only [Option.map_eq_none_iff, ih, List.mem_cons, forall_eq_or_imp]
+      exact ⟨fun h => ⟨hc, h⟩, fun h => h.2⟩
+
+theorem removeMatching_inv {m : Mol} (h : m.Inv) (ty : String) (t : Template) :
+    (m.removeMatching ty t).1.Inv := by
+  unfold Mol.removeMatching
+  cases hr : removeFirstP m.inters ty (interMatch m.nodes t) with
+  | some l =>
+    obtain ⟨⟨k1, k2, k3⟩, k4⟩ := h
+    refine ⟨⟨k1, k2, ?_⟩, k4⟩
+    intro ti hti a ha
+    obtain ⟨pre, x, post, h1, _, _, h4⟩ := (removeFirstP_some_iff _ _ _ _).mp hr
+    apply k3 ti _ a ha
+    rw [h1]; rw [h4] at hti
+    rcases List.mem_append.mp hti with h' | h'
+    · exact List.mem_append_left _ h'
+    · exact List.mem_append_right _ (List.mem_cons_of_mem _ h')
+  | none => exact h
+
+theorem pruneEdges_inv {m : Mol} (h : m.Inv) (a b : List Int) : (m.pruneEdges a b).Inv := by
+  obtain ⟨⟨k1, k2, k3⟩, k4⟩ := h
+  refine ⟨⟨k1, ?_, k3⟩, k4⟩
+  intro e he
+  exact k2 e (List.mem_filter.mp he).1
+
+theorem pruneByName_inv {m : Mol} (h : m.Inv) (na : String) (nb : Option String) :
+    (m.pruneByName na nb).Inv := pruneEdges_inv h _ _
+
 /-! ### subgraph, copy -/
 
 theorem dedupKeys_mem (ks : List Int) (x : Int) : x ∈ dedupKeys ks ↔ x ∈ ks := by
